@@ -31,6 +31,9 @@ var props = map[string]*propDef{}
 func register(p *propDef) { props[p.id] = p }
 
 func ctlDir() string {
+	if d := os.Getenv("MAMBACHECK_CTL"); d != "" {
+		return d
+	}
 	exe, err := os.Executable()
 	if err == nil {
 		d := filepath.Join(filepath.Dir(filepath.Dir(exe)), "testdata", "ctl")
